@@ -4,9 +4,9 @@ package main
 
 import (
 	"fmt"
-	"os"
 	"go/token"
 	"go/types"
+	"os"
 	"sort"
 	"strings"
 
@@ -311,6 +311,15 @@ func (g *Gen) calleeEnv(t callTarget, c *ssa.CallCommon, args []string, recv str
 				env.vars[fmt.Sprintf("arg%d", idx)] = v
 			}
 		}
+		if base := baselineParams[t.key]; len(base) == len(t.fn.Params) {
+			for i, p := range t.fn.Params {
+				if i < len(args) && base[i] != "" && base[i] != "_" && base[i] != p.Name() {
+					if _, taken := env.vars[base[i]]; !taken {
+						env.vars[base[i]] = Val{T: args[i], Ty: p.Type()}
+					}
+				}
+			}
+		}
 		// captured variables of a closure callee
 		fvs := t.fn.FreeVars
 		if len(fvs) > 0 {
@@ -377,7 +386,11 @@ func (g *Gen) applyCall(c *ssa.CallCommon, args []string, recv string, h *Heap, 
 		t.contract.Used = true
 		return g.applyContract(t, c, args, recv, h, guard, pos)
 	}
-	// no explicit contract
+	// no explicit contract: a small, loop-free, non-recursive repository function is verified through its body (inlined),
+	// so that extracting such a helper out of a function under contract changes nothing
+	if t.fn != nil && len(t.fn.Blocks) > 0 && g.w.isRepoFunc(t.fn) && g.inlinable(t.fn) {
+		return g.inlineCall(t, c, args, h, guard)
+	}
 	if t.fn != nil && len(t.fn.Blocks) > 0 && g.w.isRepoFunc(t.fn) {
 		ws := g.w.writeSet(t.fn, g)
 		g.vc.abstract(fmt.Sprintf("default contract for %s (frame = syntactic write set, ensures true)", t.key))
@@ -726,7 +739,11 @@ func (g *Gen) applyContract(t callTarget, c *ssa.CallCommon, args []string, recv
 			break
 		}
 	}
-	// vacuity guard: the state after the call must be reachable under the assumed contract
+	// vacuity guard: the state after the call must be reachable under the assumed contract (unless the callee is
+	// declared to end the program for some arguments: `flag mayexit`, e.g. sending a zerolog Fatal event)
+	if ct.Flags["mayexit"] != "" {
+		return post, results
+	}
 	g.vc.Covers = append(g.vc.Covers, CoverPoint{Guard: guard, NAssumes: len(g.vc.assumes), PreAssumes: preAssumes, What: "after call to " + t.key + " at " + g.pos(pos)})
 	return post, results
 }
@@ -912,4 +929,112 @@ func (g *Gen) havocCallbackFrame(h *Heap, cc *Contract, guard string) (*Heap, bo
 		}
 	}
 	return h, true
+}
+
+var inlineCounter int
+
+// inlinable: no contract, few blocks, no loops, no goroutines, not on the current inline stack, limited depth.
+func (g *Gen) inlinable(fn *ssa.Function) bool {
+	if os.Getenv("GOVC_NOINLINE") != "" || g.inlineDepth >= 3 || g.inlineStack[fn] || len(fn.Blocks) > 16 || fn == g.fn {
+		return false
+	}
+	if fn.Recover != nil {
+		return false
+	}
+	for _, b := range fn.Blocks {
+		for _, s := range b.Succs {
+			if s.Dominates(b) {
+				return false // loop
+			}
+		}
+		for _, in := range b.Instrs {
+			switch in.(type) {
+			case *ssa.Go, *ssa.Select, *ssa.Range:
+				return false
+			}
+		}
+	}
+	return true
+}
+
+// inlineCall generates the callee's body in place: its entry heap is the call-site heap, its entry condition the
+// call-site guard; safety and callee-precondition obligations inside it become obligations of the caller.
+func (g *Gen) inlineCall(t callTarget, c *ssa.CallCommon, args []string, h *Heap, guard string) (*Heap, []string) {
+	fn := t.fn
+	inlineCounter++
+	stack := map[*ssa.Function]bool{fn: true, g.fn: true}
+	for k := range g.inlineStack {
+		stack[k] = true
+	}
+	g2 := &Gen{w: g.w, specs: g.specs, fn: fn, vals: map[ssa.Value]string{}, tuples: map[ssa.Value][]string{},
+		reach: map[*ssa.BasicBlock]string{}, outHeap: map[*ssa.BasicBlock]*Heap{}, loops: map[*ssa.BasicBlock]*loopInfo{},
+		backEdge: map[[2]int]bool{}, ranges: map[*ssa.Range]*rangeInfo{}, counters: g.counters, closures: map[ssa.Value]*ssa.MakeClosure{},
+		globals: g.globals, safety: g.safety, vc: g.vc, model: g.model, entry: g.entry, env0: g.env0,
+		contract:    &Contract{Key: funcKey(fn), Loops: map[int]*LoopSpec{}, Flags: map[string]string{}, ParamSpecs: map[string]string{}},
+		inlineID:    inlineCounter,
+		inlineDepth: g.inlineDepth + 1, inlineStack: stack, startHeap: h, startReach: guard}
+	if g.contract.Flags["noguard"] != "" {
+		g2.contract.Flags["noguard"] = "true"
+	}
+	// function-typed fields called inside the helper are bound like in the function it was extracted from
+	for k, v := range g.contract.ParamSpecs {
+		g2.contract.ParamSpecs[k] = v
+	}
+	for i, p := range fn.Params {
+		if i < len(args) {
+			g2.vals[p] = args[i]
+		}
+	}
+	for i, fv := range fn.FreeVars {
+		if i < len(t.bindings) {
+			g2.vals[fv] = t.bindings[i]
+		} else {
+			g2.vals[fv] = g.vc.Fresh("fv."+fv.Name(), SInt)
+		}
+	}
+	g.vc.abstract(fmt.Sprintf("%s has no contract: verified through its body (inlined)", funcKey(fn)))
+	func() {
+		defer func() {
+			if r := recover(); r != nil {
+				if ee, ok := r.(evalErr); ok {
+					g.errorf("inlining %s: %s", funcKey(fn), string(ee))
+					return
+				}
+				panic(r)
+			}
+		}()
+		for _, b := range g2.rpo() {
+			g2.blockCur = b
+			g2.processBlock(b)
+		}
+	}()
+	g.errors = append(g.errors, g2.errors...)
+	sites := retSites[g2]
+	delete(retSites, g2)
+	nres := fn.Signature.Results().Len()
+	fresh := func() []string {
+		var rs []string
+		for i := 0; i < nres; i++ {
+			rs = append(rs, g.vc.Fresh("res."+mangle(lastSeg(t.key)), sortOf(fn.Signature.Results().At(i).Type())))
+		}
+		return rs
+	}
+	if len(sites) == 0 {
+		// the callee never returns on any path
+		return h, fresh()
+	}
+	var edges []heapEdge
+	for _, s := range sites {
+		edges = append(edges, heapEdge{s.guard, s.heap})
+	}
+	exit := g.vc.JoinHeaps(edges)
+	results := fresh()
+	for i := range results {
+		for _, s := range sites {
+			if i < len(s.results) {
+				g.vc.Def(Imp(s.guard, Eq(results[i], s.results[i])))
+			}
+		}
+	}
+	return exit, results
 }
